@@ -116,7 +116,7 @@ class RecEngine:
         RecEngine.last = kw
 
 
-def builder_scenario(chk, multi, fn_order=("b", "a"), rebuild=False, tagx=""):
+def builder_scenario(chk, multi, fn_order=("b", "a"), rebuild=False, tagx="", extra=False):
     """EngineBuilder(seed).set_initial_values(..., multiple_chains=multi) with jitter functions, build() with Engine re-bound to a recorder"""
     import liesel.goose as gs
     import liesel.goose.builder as bld
@@ -129,13 +129,16 @@ def builder_scenario(chk, multi, fn_order=("b", "a"), rebuild=False, tagx=""):
             b = gs.EngineBuilder(seed_key, C)
             b.set_model(gs.DictInterface(lambda s: -0.5 * jnp.sum(s["a"] ** 2) - 0.5 * s["b"] ** 2))
             st = {"a": sa, "b": sb}
+            if extra:       # a state entry no kernel samples, tracked through positions_included, with a jitter function of its own
+                st["c"] = sb * 3.0
+                b.positions_included = ["c"]
             b.set_initial_values(st, multiple_chains=multi)
             b.add_kernel(gs.RWKernel(["a"]))
             b.add_kernel(gs.RWKernel(["b"]))
             b.set_epochs([gs.EpochConfig(gs.EpochType.INITIAL_VALUES, 1, 1, None), gs.EpochConfig(gs.EpochType.POSTERIOR, 2, 1, None)])
             # "a": ONE scalar draw per call, added to every component (a jitter function sees one chain's value and one key);
             # "b": element-wise
-            fns = {"b": lambda key, v: v + 0.5 * jax.random.uniform(key, v.shape), "a": lambda key, v: v + 2.0 * jax.random.uniform(key, ()) * jnp.ones_like(v)}
+            fns = {"c": lambda key, v: v + 0.25 * jax.random.uniform(key, v.shape), "b": lambda key, v: v + 0.5 * jax.random.uniform(key, v.shape), "a": lambda key, v: v + 2.0 * jax.random.uniform(key, ()) * jnp.ones_like(v)}
             b.set_jitter_fns({k: fns[k] for k in fn_order})
             b.build()
             kw = kw2 = RecEngine.last
@@ -270,6 +273,21 @@ def builder_obligations(chk, multi):
         st = V.out["states"]
         return [], z3.And(*[all_eq(st["a"][c], (sa3[c] if multi else sa3)) for c in range(C)])
     obs.append(Obligation(f"[{tag}] a position key without a jitter function starts at its supplied initial value in every chain", [enc3], g3, signature=f"jitter-partial:{'multi' if multi else 'single'}"))
+    # a jitter function for a key that no kernel samples (tracked through positions_included) is applied as well
+    enc4, sa4, sb4, _ = builder_scenario(chk, multi, fn_order=("c", "b"), tagx="extra", extra=True)
+
+    def g4(V):
+        st = V.out["states"]
+        if "c" not in st:
+            return [], z3.BoolVal(False)
+        uni = [d for d in V.I.draws if d["kind"] == "uniform" and d["out"].ndim >= 1 and d["out"].shape[0] == C and len(d["keys"]) == C]
+        goals = []
+        for c in range(C):
+            init = 3 * (sb4[c] if multi else sb4)
+            goals.append(z3.Or(*[cells(st["c"][c])[0] == cells(init)[0] + z3.RealVal("1/4") * cells(d["out"][c])[0] for d in uni]) if uni else z3.BoolVal(False))
+        return [], z3.And(*goals)
+    obs.append(Obligation(f"[{tag}] a jitter function configured for a state entry that no kernel samples is applied too (every chain starts at jitter(initial value) for every key with a jitter function)",
+                          [enc4], g4, signature=f"jitter-extra:{'multi' if multi else 'single'}"))
     enc2 = builder_scenario(chk, multi, rebuild=True)[0]
     obs.append(Obligation(f"[{tag}] a second build() of the same builder hands its engine the same seeds and the same (once-jittered) initial states: identical configuration => identical run",
                           [enc2], g2, signature=f"rebuild:{'multi' if multi else 'single'}"))
